@@ -34,6 +34,23 @@ GRID = 1953125          # 2^-9 s in ns
 NS = 1_000_000_000
 
 
+# --------------------------------------------------------------------------- term encoder
+def tm(v) -> str:
+    """hsverif.coq.term with lists written as cons chains: Coq parses the recursive list
+    notation [a; b; ...] several times slower on the long traces of this property."""
+    if isinstance(v, Raw):
+        return str(v)
+    if isinstance(v, list):
+        return "(" + "".join(f"cons {tm(a)} (" for a in v) + "nil" + ")" * len(v) + ")"
+    if isinstance(v, tuple):
+        return "(" + ", ".join(tm(a) for a in v) + ")"
+    if isinstance(v, Ctor):
+        return "(" + v.name + " " + " ".join(tm(a) for a in v.args) + ")" if v.args else v.name
+    if isinstance(v, SomeV):
+        return f"(Some {tm(v.v)})"
+    return term(v)
+
+
 # --------------------------------------------------------------------------- number encoders
 def numq(x) -> Raw:
     fr = Fraction(x)
@@ -240,7 +257,7 @@ def encode_policy(c, obs):
     kind = KINDS[c["kind"]]
     num = numq if c["inst"] == "q" else numf
     tr = [(kind.op_term(op, t), (r, kind.state_term(st, num))) for op, t, r, st in obs["trace"]]
-    return term((kind.params_term(c["params"], num), tr))
+    return tm((kind.params_term(c["params"], num), tr))
 
 
 # --------------------------------------------------------------------------- property oracle
@@ -412,7 +429,7 @@ DYAD = [0.0, 0.5, 1.0, 1.5, 2.0, 3.0, 4.25, 0.75, 1.0, 2.0, 5.0]
 
 
 def gen_ops(rng, grid: bool, n=None, feedback=False):
-    n = n or rng.randint(1, 30)
+    n = n or rng.randint(1, 24)
     style = rng.choice(["dense", "sparse", "mixed", "burst"])
     ops = []
     for _ in range(n):
@@ -553,12 +570,12 @@ def _pol_obs_term(c, st):
     num = numq if c["inst"] == "q" else numf
     k = c["kind"]
     if k == "tb":
-        return Raw(f"(@OTb {O} {num(st[0])} {term(opt(st[1]))})")
+        return Raw(f"(@OTb {O} {num(st[0])} {tm(opt(st[1]))})")
     if k == "lk":
-        return Raw(f"(@OLk {O} {term(opt(st))})")
+        return Raw(f"(@OLk {O} {tm(opt(st))})")
     if k == "sw":
-        return Raw(f"(@OSw {O} {term(list(st))})")
-    return Raw(f"(@OFw {O} {term(opt(st[0]))} {st[1]})")
+        return Raw(f"(@OSw {O} {tm(list(st))})")
+    return Raw(f"(@OFw {O} {tm(opt(st[0]))} {st[1]})")
 
 
 def impl_entity(c):
@@ -612,7 +629,7 @@ def encode_entity(c, obs):
         i = Ctor("EPoll", s["inp"][1]) if s["inp"][0] == "P" else Ctor("EReq", s["inp"][1], s["inp"][2])
         outs = [Ctor("OFwd", o[1], o[2]) if o[0] == "F" else Ctor("OPoll", o[1]) for o in s["outs"]]
         tr.append((i, (outs, list(s["queue"]), s["poll"], tuple(s["stats"]), _pol_obs_term(c, s["pol"]))))
-    return term((cfg, st0, c["cap"], tr))
+    return tm((cfg, st0, c["cap"], tr))
 
 
 def oracle_entity(c, obs):
@@ -700,6 +717,257 @@ def entity_family(inst):
                   describe=lambda c: f"ent_{c['kind']}_{c['inst']},cap={min(c['cap'], 9)}")
 
 
+# --------------------------------------------------------------------------- Inductor and NullRateLimiter in real Simulations
+def impl_inductor(c):
+    from happysimulator.components.rate_limiter.inductor import Inductor
+    from happysimulator.core.entity import Entity
+    from happysimulator.core.event import Event
+    from happysimulator.core.simulation import Simulation
+    from happysimulator.core.temporal import Instant
+    from hsverif.util import run_bounded
+    trace, got = [], []
+    tau = c["tau"]
+
+    class Sink(Entity):
+        def handle_event(self, event):
+            got.append([event.time.nanoseconds, event.context.get("id")])
+            return []
+
+    class Rec(Inductor):
+        def handle_event(self, event):
+            t = event.time.nanoseconds
+            is_poll = event.event_type == f"inductor_poll::{self.name}"
+            alpha = 0.0
+            if not is_poll and self._last_arrival_time is not None:
+                dt = (event.time - self._last_arrival_time).to_seconds()
+                if dt >= 0:
+                    alpha = 1.0 - math.exp(-dt / tau) if tau > 0 else 1.0     # same expression as the code
+            outs = super().handle_event(event)
+            o = []
+            for ev in outs:
+                if ev.event_type.startswith("forward::"):
+                    o.append(["F", ev.context["id"], ev.time.nanoseconds])
+                else:
+                    o.append(["P", ev.time.nanoseconds])
+            st = self.stats
+            trace.append(dict(inp=["P", t] if is_poll else ["R", event.context["id"], t, alpha], outs=o,
+                              queue=[e.context["id"] for e in self._queue._queue], poll=bool(self._poll_scheduled),
+                              stats=[st.received, st.forwarded, st.queued, st.dropped],
+                              pol=[self._smoothed_interval, _ns(self._last_arrival_time), _ns(self._last_output_time)]))
+            return outs
+
+    sink = Sink("sink")
+    rl = Rec("ind", sink, tau, queue_capacity=c["cap"])
+    sim = Simulation(entities=[rl, sink], end_time=Instant(c["end"]))
+    for i, t in enumerate(c["arrivals"]):
+        sim.schedule(Event(time=Instant(t), event_type="req", target=rl, context={"id": i}))
+    _summary, verdict = run_bounded(sim, max_events_per_instant=300, max_events=20000, wall_s=20.0)
+    st = rl.stats
+    return dict(trace=trace[:400], steps=len(trace), sink=got, verdict=verdict, queue_depth=rl.queue_depth,
+                stats=[st.received, st.forwarded, st.queued, st.dropped])
+
+
+def encode_inductor(c, obs):
+    tr = []
+    for s in obs["trace"]:
+        if s["inp"][0] == "P":
+            i = Raw(f"(@IPoll Fops {s['inp'][1]})")
+        else:
+            i = Raw(f"(@IReq Fops {s['inp'][1]} {s['inp'][2]} {numf(s['inp'][3])})")
+        outs = [Ctor("OFwd", o[1], o[2]) if o[0] == "F" else Ctor("OPoll", o[1]) for o in s["outs"]]
+        sm, la, lo = s["pol"]
+        pol = (None if sm is None else SomeV(numf(sm)), opt(la), opt(lo))
+        tr.append((i, (outs, list(s["queue"]), s["poll"], tuple(s["stats"]), pol)))
+    return tm((numf(0.01), c["cap"], tr))
+
+
+def gen_inductor(rng):
+    unit = rng.choice([1, 1000, 1_000_000, 100_000_000, 250_000_000])
+    n = rng.randint(1, 16)
+    t, arr = rng.choice([0, 0, unit]), []
+    for _ in range(n):
+        t += rng.choice([0, 0, 0, 1, 1, 2, 3, 10]) * unit
+        arr.append(t)
+    return dict(tau=rng.choice([1.0, 0.1, 5.0, 0.001, 1e-9]), cap=rng.choice([0, 1, 2, 5, 1000]), arrivals=arr,
+                end=arr[-1] + 400 * NS, can_drain=True)
+
+
+def oracle_inductor(c, obs):
+    fs = oracle_entity(c, obs)
+    for f in fs:
+        if f.get("mechanism") == "bypass-nonempty-queue":
+            f["what"] = ("Inductor forwards an arriving request immediately while earlier requests are still queued "
+                         "(same structure as RateLimitedEntity._handle_request)")
+    return fs
+
+
+def impl_null(c):
+    from happysimulator.components.rate_limiter.null import NullRateLimiter
+    from happysimulator.core.entity import Entity
+    from happysimulator.core.event import Event
+    from happysimulator.core.simulation import Simulation
+    from happysimulator.core.temporal import Instant
+    from hsverif.util import run_bounded
+    trace, got = [], []
+
+    class Sink(Entity):
+        def handle_event(self, event):
+            got.append([event.time.nanoseconds, event.context.get("id")])
+            return []
+
+    class Rec(NullRateLimiter):
+        def handle_event(self, event):
+            outs = super().handle_event(event)
+            trace.append([event.context["id"], event.time.nanoseconds,
+                          [[ev.context.get("id"), ev.time.nanoseconds, ev.target is sink] for ev in outs]])
+            return outs
+
+    sink = Sink("sink")
+    rl = Rec("null", sink)
+    sim = Simulation(entities=[rl, sink], end_time=Instant(c["end"]))
+    for i, t in enumerate(c["arrivals"]):
+        sim.schedule(Event(time=Instant(t), event_type="req", target=rl, context={"id": i}))
+    _summary, verdict = run_bounded(sim, max_events_per_instant=300, max_events=20000, wall_s=20.0)
+    return dict(trace=trace, sink=got, verdict=verdict)
+
+
+def encode_null(c, obs):
+    return tm([(i, t, [Ctor("OFwd", o[0], o[1]) for o in outs]) for i, t, outs in obs["trace"]])
+
+
+def oracle_null(c, obs):
+    ids = [i for _t, i in obs["sink"]]
+    out = []
+    if obs["verdict"] != "ok" or ids != list(range(len(c["arrivals"]))) or \
+            [t for t, _ in obs["sink"]] != sorted(c["arrivals"]) or \
+            any(not all(o[2] for o in outs) for _i, _t, outs in obs["trace"]):
+        out.append(dict(clause="null limiter forwards every request exactly once, in arrival order, at its arrival time",
+                        sink=obs["sink"][:20], verdict=obs["verdict"]))
+    return out
+
+
+def gen_null(rng):
+    arr = sorted(rng.choice([0, 1, 5, 1000, NS]) * rng.randint(0, 5) for _ in range(rng.randint(1, 12)))
+    return dict(arrivals=arr, end=arr[-1] + NS)
+
+
+# --------------------------------------------------------------------------- DistributedRateLimiter (generator handler; one step per resumption)
+def impl_dist(c):
+    from happysimulator.components.datastore import KVStore
+    from happysimulator.components.rate_limiter.distributed import DistributedRateLimiter
+    from happysimulator.core.entity import Entity
+    from happysimulator.core.event import Event
+    from happysimulator.core.simulation import Simulation
+    from happysimulator.core.temporal import Instant
+    from hsverif.util import run_bounded
+    trace, got = [], []
+    store = KVStore("kv", read_latency=c["rl"], write_latency=c["wl"])
+    lims = []
+
+    def snapshot():
+        st = sorted([int(k.rsplit(":", 1)[1]), v] for k, v in store._data.items())
+        ls = []
+        for L in lims:
+            x = L.stats
+            ls.append([L._local_window_id, L._local_count, L._last_known_global_count,
+                       [x.requests_received, x.requests_forwarded, x.requests_dropped, x.store_reads, x.store_writes,
+                        x.local_rejections, x.global_rejections]])
+        return st, ls
+
+    class Sink(Entity):
+        def handle_event(self, event):
+            got.append([event.time.nanoseconds, event.context.get("id")])
+            return []
+
+    class Rec(DistributedRateLimiter):
+        def handle_event(self, event):
+            gen = super().handle_event(event)
+            req, li = event.context["id"], event.context["lim"]
+            wid = self._get_window_id(event.time)
+
+            def wrapped():
+                first = True
+                while True:
+                    ev = ["S", li, req, wid] if first else ["R", req, self.now.nanoseconds]
+                    first = False
+                    try:
+                        y = next(gen)
+                    except StopIteration as e:
+                        st, ls = snapshot()
+                        trace.append(dict(ev=ev, out=["F", req, e.value[0].time.nanoseconds] if e.value else ["D", req],
+                                          store=st, lims=ls))
+                        return e.value
+                    st, ls = snapshot()
+                    trace.append(dict(ev=ev, out=["W"], store=st, lims=ls))
+                    yield y
+            return wrapped()
+
+    sink = Sink("sink")
+    for i in range(c["nlim"]):
+        lims.append(Rec(f"lim{i}", sink, store, global_limit=c["limit"], window_size=c["w"]))
+    sim = Simulation(entities=[*lims, store, sink], end_time=Instant(c["end"]))
+    for i, (t, li) in enumerate(c["arrivals"]):
+        sim.schedule(Event(time=Instant(t), event_type="req", target=lims[li], context={"id": i, "lim": li}))
+    _summary, verdict = run_bounded(sim, max_events_per_instant=2000, max_events=50000, wall_s=20.0)
+    _st, ls = snapshot()
+    return dict(trace=trace[:600], steps=len(trace), sink=got, verdict=verdict, lims=ls)
+
+
+def encode_dist(c, obs):
+    tr = []
+    for s in obs["trace"]:
+        ev = Ctor("DStart", s["ev"][1], s["ev"][2], s["ev"][3]) if s["ev"][0] == "S" else Ctor("DResume", s["ev"][1], s["ev"][2])
+        o = s["out"]
+        out = Ctor("DWait") if o[0] == "W" else (Ctor("DFwd", o[1], o[2]) if o[0] == "F" else Ctor("DDrop", o[1]))
+        ls = [(opt(L[0]), L[1], L[2], tuple(L[3])) for L in s["lims"]]
+        tr.append((ev, (out, [tuple(kv) for kv in s["store"]], ls)))
+    return tm((c["limit"], tr))
+
+
+def oracle_dist(c, obs):
+    out = []
+    if obs["verdict"] != "ok":
+        return [dict(clause="distributed limiter run does not finish", verdict=obs["verdict"])]
+    ids = [i for _t, i in obs["sink"]]
+    if len(set(ids)) != len(ids):
+        out.append(dict(clause="distributed: a request is forwarded at most once", sink=ids[:40]))
+    for li, L in enumerate(obs["lims"]):
+        rc, fw, dr, rd, wr, lr, gr = L[3]
+        n_arr = sum(1 for _t, l in c["arrivals"] if l == li)
+        if rc != n_arr or rc != fw + dr or dr != lr + gr:
+            out.append(dict(clause="distributed: every request is forwarded or dropped exactly once (counters)", limiter=li,
+                            received=rc, forwarded=fw, dropped=dr, arrivals=n_arr))
+    if sum(L[3][1] for L in obs["lims"]) != len(ids):
+        out.append(dict(clause="distributed: every request counted as forwarded reaches the downstream entity exactly once",
+                        forwarded=sum(L[3][1] for L in obs["lims"]), delivered=len(ids)))
+    return out
+
+
+def gen_dist(rng):
+    unit = rng.choice([1_000_000, 500_000, 10_000_000])
+    n = rng.randint(1, 18)
+    nlim = rng.randint(1, 3)
+    t, arr = 0, []
+    for _ in range(n):
+        t += rng.choice([0, 0, 1, 1, 2, 3, 7, 100]) * unit
+        arr.append([t, rng.randrange(nlim)])
+    return dict(nlim=nlim, limit=rng.randint(1, 5), w=rng.choice([0.1, 0.05, 1.0, 0.3]),
+                rl=rng.choice([0.001, 0.0005, 0.002, 0.0]), wl=rng.choice([0.001, 0.002, 0.0005, 0.0]),
+                arrivals=arr, end=arr[-1][0] + 10 * NS)
+
+
+DIST_FAMILY = Family("dist", IMPORTS, "ok_dist", "Z * list (dev * dobs)", gen_dist, impl_dist, encode_dist, oracle_dist,
+                     lambda c, o: any(s["out"][0] == "D" for s in o["trace"]), parallel=True,
+                     describe=lambda c: f"dist,nlim={c['nlim']},limit={c['limit']}")
+
+
+IND_FAMILY = Family("ind_f", IMPORTS, "ok_ind_f", "float * Z * list (iin Fops * iobs Fops)", gen_inductor, impl_inductor,
+                    encode_inductor, oracle_inductor, lambda c, o: any(s["inp"][0] == "P" for s in o["trace"]),
+                    attribute_entity, parallel=True, describe=lambda c: f"ind,tau={c['tau']},cap={min(c['cap'], 9)}")
+NULL_FAMILY = Family("null", IMPORTS, "ok_null", "list (Z * Z * list eout)", gen_null, impl_null, encode_null, oracle_null,
+                     lambda c, o: len(set(c["arrivals"])) < len(c["arrivals"]), parallel=True)
+
+
 FAMILIES = [
     policy_family("tb", "q", gen_tb("q")),
     policy_family("tb", "f", gen_tb("f")),
@@ -713,10 +981,13 @@ FAMILIES = [
     policy_family("ad", "f", gen_ad("f")),
     entity_family("q"),
     entity_family("f"),
+    IND_FAMILY,
+    NULL_FAMILY,
+    DIST_FAMILY,
 ]
 
 PROOF_FILES = ["C10/Model.v", "C10/QFacts.v", "C10/TokenBucket.v", "C10/Leaky.v", "C10/Sliding.v", "C10/Fixed.v",
-               "C10/Adaptive.v", "C10/Entity.v", "C10/Props.v"]
+               "C10/Adaptive.v", "C10/Entity.v", "C10/Dist.v", "C10/Props.v"]
 
 TRUSTED = [
     "Coq 8.16.1 kernel (coqc, vm_compute for witnesses and case evaluation); no native_compute",
@@ -724,6 +995,38 @@ TRUSTED = [
     "CPython float arithmetic = IEEE 754 binary64 round-to-nearest-even as implemented by PrimFloat (checked on every _f case)",
     "correspondence harness harness/props/c10.py (generators, observers, in-Coq comparison ok_* of C10/Model.v)",
 ]
+
+
+# --------------------------------------------------------------------------- small-scope exhaustive enumeration (thorough tier)
+ENUM_PTS = [0, 500, 999, 1000, 1001, 2000]           # around one window / refill period of 1000 ns
+ENUM_PARAMS = {
+    "tb": [dict(cap=1.0, rate=1e6, init=None), dict(cap=2.0, rate=1e6, init=0.0), dict(cap=1.0, rate=2e6, init=None)],
+    "lk": [dict(rate=1e6), dict(rate=2e6), dict(rate=1e6 / 3)],
+    "sw": [dict(w=1e-6, n=1), dict(w=1e-6, n=2), dict(w=5e-7, n=1)],
+    "fw": [dict(w=1e-6, n=1), dict(w=1e-6, n=2), dict(w=5e-7, n=1)],
+}
+
+
+def enum_cases(kind, maxlen=4):
+    import itertools
+    out = []
+    for p in ENUM_PARAMS[kind]:
+        for L in range(1, maxlen + 1):
+            for combo in itertools.combinations_with_replacement(ENUM_PTS, L):
+                ops, prev = [], 0
+                for t in combo:
+                    ops.append(["probe", t - prev])
+                    prev = t
+                out.append(dict(kind=kind, inst="f", params=p, t0=0, ops=ops + [["drain", 0]]))
+    return out
+
+
+def enum_family(kind):
+    cases = enum_cases(kind)
+    it = iter(cases)
+    fam = Family(f"enum_{kind}", IMPORTS, f"ok_{kind}_f", KINDS[kind].case_type("f"), lambda rng: next(it), impl_policy,
+                 encode_policy, oracle_policy, nontrivial_policy, describe=lambda c: f"enum_{c['kind']},len={len(c['ops'])}")
+    return fam, len(cases)
 
 
 class _FamCtx:
@@ -748,16 +1051,34 @@ def run_families(ctx, fams_n):
 
 def run(ctx):
     ctx.prove(PROOF_FILES, allowed_axioms=(), trusted_base=TRUSTED)
-    n = ctx.n(120, 2500)
-    stats = run_families(ctx, [(fam, n) for fam in FAMILIES])
+    n = ctx.n(60, 300)
+    plan = [(fam, n) for fam in FAMILIES]
+    if not ctx.quick:
+        # every sequence of <= 4 probes (tua + acquire) over a 6-point grid around a window/refill boundary
+        plan += [enum_family(k) for k in ("tb", "lk", "sw", "fw")]
+    stats = run_families(ctx, plan)
     merge_stats(ctx, stats, "random structured op sequences per policy (dense/sparse/burst/boundary-aligned, ns-adjacent, "
                             "probe = tua followed by acquire, drain = follow returned waits); non-trivial = both an admitted "
                             "and a denied acquire or a positive wait; distinct by JSON of the input")
     ctx.finish_obligations()
+    ctx.assumptions += [
+        "theorems are about the exact-rational instance of the generic policy code; binary64 rounding is covered by the correspondence of the float instance (bit-exact on every generated case) and by the implementation-side oracle (slack 1e-6 tokens / 1e-12 relative spacing off the dyadic grid)",
+        "parameter ranges of the theorems: rate > 0, capacity >= 1 (progress), max_requests >= 1, window >= 1 ns, adaptive min > 0, min <= max, increase_step >= 0, 0 < decrease_factor <= 1; token bucket bound uses max(capacity, initial_tokens) (the constructor accepts initial_tokens > capacity)",
+        "adaptive bucket bound is stated for the maximal rate (max_rate*window + max_rate*length); the oracle checks the sharper bound with the largest rate in force so far",
+        "'forwards in arrival order' is refuted (c10_entity_fifo_refuted, known finding C10-entity-arrival-overtakes-queue); c10_entity_fifo_partial is what holds",
+        "DistributedRateLimiter: conservation only; its read-modify-write of the shared counter is not atomic by design, so no per-window bound is claimed or checked",
+        "Inductor: math.exp is not modelled, the EWMA weight of each arrival is a recorded input; theorems hold for all weights",
+    ]
 
 
 def replay(data):
-    fam = {f.name: f for f in FAMILIES}[data["detail"]["family"]]
+    fams = {f.name: f for f in FAMILIES}
+    for k in ("tb", "lk", "sw", "fw"):
+        fams[f"enum_{k}"] = fams[f"{k}_f"]
+    if "family" not in data.get("detail", {}):
+        print("no failing input recorded:", data.get("detail"))
+        return 1
+    fam = fams[data["detail"]["family"]]
     c = data["detail"]["case"]
     obs = fam.impl(c)
     fails = fam.oracle(c, obs)
